@@ -9,7 +9,22 @@ Import ListNotations.
 Section Fields.
   Variable Sc : schema.
   Variable sc li : fld -> bool.
-  Notation add_relV := (add_relV Sc sc).
+  Variable cls : inst -> nat.
+  (* no two distinct objects of the population compare equal (identity-compared classes, or value classes with distinct values) *)
+  Hypothesis Hinj : forall a b, cls a = cls b -> a = b.
+  Notation add_relV := (add_relV Sc sc cls).
+  Notation in_field := (in_field cls).
+
+  Lemma in_field_mem e V : in_field e V = mem e V.
+  Proof.
+    unfold Closure.in_field, mem. induction V as [|v V IH]; simpl; [reflexivity|]. rewrite IH. f_equal.
+    unfold edge_eqb. destruct e as [[s f] x], v as [[s' f'] x']; unfold esrc, efld, etgt; simpl.
+    rewrite (Nat.eqb_sym s s'), (Nat.eqb_sym f f').
+    destruct (Nat.eqb s' s); simpl; [|reflexivity]. destruct (Nat.eqb f' f); simpl; [|reflexivity].
+    destruct (Nat.eqb x x') eqn:Hx.
+    - apply Nat.eqb_eq in Hx. subst. apply Nat.eqb_refl.
+    - apply Nat.eqb_neq in Hx. apply Nat.eqb_neq. intros Hc. apply Hx. symmetry. now apply Hinj.
+  Qed.
   Notation add_rel := (add_rel Sc).
 
   (* ---------------- (1) projection ----------------------------------------------------------- *)
@@ -28,7 +43,7 @@ Section Fields.
     induction n as [|n IH]; intros inf e [E V] s' H; simpl in H |- *; [discriminate|].
     destruct (mem e E) eqn:Hm.
     { injection H as <-. reflexivity. }
-    destruct (fold_addV (add_relV n true) (sup_of Sc e) (e :: E, if inf then write_back sc e V else V)) as [s1|] eqn:H1; [|discriminate].
+    destruct (fold_addV (add_relV n true) (sup_of Sc e) (e :: E, if inf then write_back sc cls e V else V)) as [s1|] eqn:H1; [|discriminate].
     apply (fold_graph n true _ (IH true)) in H1. simpl in H1. rewrite H1.
     destruct (fold_addV (add_relV n true) (inv_of Sc e) s1) as [s2|] eqn:H2; [|discriminate].
     apply (fold_graph n true _ (IH true)) in H2. rewrite H2.
@@ -39,7 +54,7 @@ Section Fields.
     - injection H as <-. reflexivity.
   Qed.
 
-  Lemma assert1_graph n e s s' : assert1 Sc sc li n e s = Some s' -> add_rel n e (fst s) = Some (fst s').
+  Lemma assert1_graph n e s s' : assert1 Sc sc li cls n e s = Some s' -> add_rel n e (fst s) = Some (fst s').
   Proof.
     unfold assert1. destruct s as [E V]. destruct (sc (efld e)).
     - intros H. apply add_relV_graph in H. exact H.
@@ -47,16 +62,16 @@ Section Fields.
       intros H. injection H as <-. apply add_relV_graph in H1. exact H1.
   Qed.
 
-  Lemma runV_graph_gen n A : forall s0 s, fold_addV (assert1 Sc sc li n) A s0 = Some s ->
+  Lemma runV_graph_gen n A : forall s0 s, fold_addV (assert1 Sc sc li cls n) A s0 = Some s ->
     fold_add (add_rel n) A (fst s0) = Some (fst s).
   Proof.
     induction A as [|e A IHA]; intros s0 s H; simpl in H |- *.
     - injection H as <-. reflexivity.
-    - destruct (assert1 Sc sc li n e s0) as [s1|] eqn:H1; [|discriminate].
+    - destruct (assert1 Sc sc li cls n e s0) as [s1|] eqn:H1; [|discriminate].
       rewrite (assert1_graph _ _ _ _ H1). apply IHA. exact H.
   Qed.
 
-  Theorem runV_graph n A s : runV Sc sc li n A = Some s -> run Sc n A = Some (fst s).
+  Theorem runV_graph n A s : runV Sc sc li cls n A = Some s -> run Sc n A = Some (fst s).
   Proof. unfold runV, run. intros H. apply runV_graph_gen in H. exact H. Qed.
 
   (* ---------------- (2) container fields = graph --------------------------------------------- *)
@@ -75,9 +90,9 @@ Section Fields.
   Qed.
 
   Lemma write_back_In x e V : sc (efld x) = false ->
-    (In x (write_back sc e V) <-> In x V \/ (x = e)).
+    (In x (write_back sc cls e V) <-> In x V \/ (x = e)).
   Proof.
-    intros Hx. unfold write_back, in_field. destruct (sc (efld e)) eqn:He.
+    intros Hx. unfold write_back. rewrite in_field_mem. destruct (sc (efld e)) eqn:He.
     - assert (Hne : x <> e) by (intros ->; congruence).
       destruct (mem e V) eqn:Hm.
       + split; [auto|]. intros [H | H]; [auto | contradiction].
@@ -107,7 +122,7 @@ Section Fields.
     { injection H as <-. exact Hi. }
     assert (IH' : forall e s s', add_relV n true e s = Some s' -> inv e0 s -> inv e0 s').
     { intros e1 s1 s1' H1. apply (IH true e1 s1 s1' H1). discriminate. }
-    assert (Hi0 : inv e0 (e :: E, if inf then write_back sc e V else V)).
+    assert (Hi0 : inv e0 (e :: E, if inf then write_back sc cls e V else V)).
     { intros x Hx. destruct (Hi x Hx) as [Ha Hb]. simpl in Ha, Hb |- *. destruct inf.
       - rewrite (write_back_In x e V Hx). split.
         + intros [H' | ->]; auto.
@@ -115,7 +130,7 @@ Section Fields.
       - split.
         + intros H'. right. auto.
         + intros [<- | H']; [right; apply Hinf; reflexivity | auto]. }
-    destruct (fold_addV (add_relV n true) (sup_of Sc e) (e :: E, if inf then write_back sc e V else V)) as [s1|] eqn:H1; [|discriminate].
+    destruct (fold_addV (add_relV n true) (sup_of Sc e) (e :: E, if inf then write_back sc cls e V else V)) as [s1|] eqn:H1; [|discriminate].
     pose proof (fold_inv n e0 _ IH' _ _ H1 Hi0) as Hi1.
     destruct (fold_addV (add_relV n true) (inv_of Sc e) s1) as [s2|] eqn:H2; [|discriminate].
     pose proof (fold_inv n e0 _ IH' _ _ H2 Hi1) as Hi2.
@@ -128,7 +143,7 @@ Section Fields.
 
   Definition agree (s : st) : Prop := forall x, sc (efld x) = false -> (In x (snd s) <-> In x (fst s)).
 
-  Lemma assert1_agree n e s s' : assert1 Sc sc li n e s = Some s' -> agree s -> agree s'.
+  Lemma assert1_agree n e s s' : assert1 Sc sc li cls n e s = Some s' -> agree s -> agree s'.
   Proof.
     unfold assert1. destruct s as [E V]. intros H Ha. destruct (sc (efld e)) eqn:He.
     - assert (Hi : inv e (E, e :: drop_field (esrc e) (efld e) V)).
@@ -149,7 +164,7 @@ Section Fields.
       assert (HV : forall y, In y (if li (efld e) then e :: V' else if in_field e V' then V' else e :: V') <-> In y V' \/ y = e).
       { intros y. destruct (li (efld e)).
         - simpl. split; intros [H' | H']; auto.
-        - unfold in_field. destruct (mem e V') eqn:Hm.
+        - rewrite in_field_mem. destruct (mem e V') eqn:Hm.
           + apply mem_In in Hm. split; [auto|]. intros [H' | ->]; auto.
           + simpl. split; intros [H' | H']; auto. }
       rewrite HV. split.
@@ -157,7 +172,7 @@ Section Fields.
       + intros H'. destruct (H3 H'); auto.
   Qed.
 
-  Theorem runV_fields n A E V : runV Sc sc li n A = Some (E, V) ->
+  Theorem runV_fields n A E V : runV Sc sc li cls n A = Some (E, V) ->
     forall e, sc (efld e) = false -> (In e V <-> In e E).
   Proof.
     unfold runV. intros H.
@@ -165,7 +180,7 @@ Section Fields.
     { revert H. assert (H0 : agree (@nil edge, @nil edge)) by (intros x _; simpl; tauto).
       revert H0. generalize (@nil edge, @nil edge). induction A as [|e A IHA]; intros s0 H0 H; simpl in H.
       - injection H as <-. exact H0.
-      - destruct (assert1 Sc sc li n e s0) as [s1|] eqn:H1; [|discriminate].
+      - destruct (assert1 Sc sc li cls n e s0) as [s1|] eqn:H1; [|discriminate].
         apply (IHA s1); [|exact H]. apply (assert1_agree _ _ _ _ H1 H0). }
     intros e He. exact (Hag e He).
   Qed.
